@@ -254,6 +254,8 @@ type hdBackend struct {
 	inflight  atomic.Int32
 	roomReply hdRoomReply
 	gate      chan struct{} // when non-nil, auth requests wait here
+	roomGate  chan struct{} // when non-nil, room join requests wait here (after the reply was chosen)
+	held      atomic.Int32  // room join requests waiting at roomGate
 	keys      map[int]string // backend index -> hello v2 public key (capabilities)
 	features  []string
 }
@@ -324,7 +326,17 @@ func (b *hdBackend) handler(idx int) http.HandlerFunc {
 			}
 			b.mu.Lock()
 			reply := b.roomReply
+			roomGate := b.roomGate
+			if roomGate != nil {
+				b.reqs = append(b.reqs, hdBackendReq{Backend: rec.Backend, Type: "room-held", Room: rec.Room, Session: rec.Session, MacOk: macOk, RndLen: len(rnd)})
+			}
 			b.mu.Unlock()
+			if roomGate != nil {
+				// the answer to this join is held back until the driver opens the gate
+				b.held.Add(1)
+				<-roomGate
+				b.held.Add(-1)
+			}
 			if reply.Error != "" {
 				response = &BackendClientResponse{Type: "error", Error: &Error{Code: reply.Error, Message: "refused by the backend"}}
 			} else {
@@ -942,7 +954,7 @@ func (s *hdSystem) quiesce() {
 	deadline := time.Now().Add(3 * time.Second)
 	idle := 0
 	for time.Now().Before(deadline) {
-		if s.loopBusy.Load() == 0 && s.backend.inflight.Load() == 0 &&
+		if s.loopBusy.Load() == 0 && s.backend.inflight.Load() == s.backend.held.Load() &&
 			int(s.hub.readPumpActive.Load()) == s.openClients() && s.idleDump() {
 			idle++
 			if idle >= 4 {
@@ -993,6 +1005,16 @@ func (s *hdSystem) sendSync(c *hdClient, data []byte) {
 	if err := c.send(data); err != nil {
 		return
 	}
+	s.syncSeq++
+	id := fmt.Sprintf("hdsync%d", s.syncSeq)
+	if err := c.send([]byte(fmt.Sprintf(`{"id":"%s","type":"message"}`, id))); err != nil {
+		return
+	}
+	c.waitForId(id, 5*time.Second)
+}
+
+// syncOnly: the marker alone; everything sent on the connection before is processed when its reply is there
+func (s *hdSystem) syncOnly(c *hdClient) {
 	s.syncSeq++
 	id := fmt.Sprintf("hdsync%d", s.syncSeq)
 	if err := c.send([]byte(fmt.Sprintf(`{"id":"%s","type":"message"}`, id))); err != nil {
